@@ -203,6 +203,9 @@ class Worker:
         if m.type == message.Type.task:
             w.on_task_received(self, m)
             self.task = m
+            info = w.hands.get(id(self.ep.conn.proto)) or {}
+            self.task_epoch = info.get('task_epoch', w.G.epoch)  # the load during which the task was handed out
+            self.task_at = self.sim.now
             self.got_task = True
             self.ep.close()
             if w.cfg['faults'] and ch.flip('w.die', 1, 25):
@@ -224,13 +227,50 @@ class Worker:
             self.at = self.sim.now + 1.0 + self.w.ch.choose('w.retry', 3) * 3.0
 
     def reply(self):
+        """the real worker first asks for the pipeline's status with its own revision
+        (worker.Context.abort) and drops its result when told to abort"""
+        import dawgie.pl.message as message
+
+        w = self.w
+        try:
+            self.poll = MsgEndpoint(self.sim, pipeenv.FARM_PORT, self.on_status, self.on_status_closed, host=self.host)
+        except ConnectionRefusedError:
+            self.state, self.at = 'idle', self.sim.now + 5.0
+            return
+        self.state = 'polling'
+        self.poll.send(message.make(typ=message.Type.status, rev=self.registered_rev))
+
+    def on_status(self, m):
+        import dawgie.pl.message as message
+
+        if self.state != 'polling':
+            return
+        self.w.on_status_reply(self, m)
+        if m.type == message.Type.response and not m.success:
+            self.w.on_result_dropped(self, self.task)
+            self.task = None
+            self.state, self.at = 'idle', self.sim.now + 2.0
+            return
+        self.state = 'replying'
+        self.really_reply()
+
+    def on_status_closed(self, why):
+        if self.state == 'polling':  # no answer: the real worker would raise; the result is lost
+            self.w.on_result_dropped(self, self.task)
+            self.task = None
+            self.state, self.at = 'idle', self.sim.now + 2.0
+
+    def really_reply(self):
         import dawgie.pl.message as message
 
         w, ch, m = self.w, self.w.ch, self.task
         outcome, values = w.decide_outcome(m)
         self.outcome = outcome
+        # the real worker stamps timing['started']; here the stamp also identifies the execution
+        stamp = f'w{self.idx}#{self.inc}@{self.task_at:.3f}'
+        w.stamps[stamp] = self.task_epoch
         msg = message.make(typ=message.Type.response, inc=m.target, jid=m.jobid, rid=m.runid,
-                           suc=outcome, tim=dict(m.timing or {}), val=values)
+                           suc=outcome, tim=dict(m.timing or {}, started=stamp), val=values)
         try:
             ep = MsgEndpoint(self.sim, pipeenv.FARM_PORT, lambda _m: None, host=self.host)
         except ConnectionRefusedError:
@@ -274,9 +314,9 @@ class User:
 
 DEFAULT_CFG = dict(
     prop='C03', events=12, max_steps=900, workers=3, faults=False, tail_ticks=None,
-    mix=dict(run=6, rerun_executing=2, add_target=1, run_all=1, run_empty=0),
+    mix=dict(run=6, rerun_executing=2, add_target=1, run_all=1, run_empty=0, update=0),
     outcome=dict(success=6, failure=1, invalid=1), max_total=7, max_pkgs=3,
-    pre_versions=2, stop_on=None, net=False,
+    pre_versions=2, stop_on=None, net=False, record_on_run=False, graph_edits=True,
 )
 
 
@@ -294,6 +334,8 @@ class PipeWorld:
         self.delays = [0.01, 1.0, 4.0, 6.0, 30.0, 200.0]
         self.gaps = [0.0, 0.5, 3.0, 7.0, 20.0, 100.0]
         self.dead_units = set()
+        self.stamps = {}
+        self.handed_log = set()
         self.user_done_at = None
         self.chron = []
         self.stop_on = set(self.cfg['stop_on'] or [self.cfg['prop']])
@@ -323,7 +365,16 @@ class PipeWorld:
     def known_targets(self):
         import dawgie.db
 
-        return dawgie.db.targets()
+        try:
+            self._known = dawgie.db.targets()
+        except RuntimeError:  # database closed (reload window): last known list
+            self.probes['targets_asked_while_db_closed'] += 1
+        return list(getattr(self, '_known', []))
+
+    def db_open(self):
+        from dawgie.db.shelve.state import DBI
+
+        return DBI().is_open
 
     # -- world construction ------------------------------------------------
     def build(self):
@@ -351,7 +402,9 @@ class PipeWorld:
         while rest:
             order.append(rest.pop(ch.choose('gen.pkgorder', len(rest))))
         self.factories = self.eng.factories(order)
-        scan.for_factories = lambda ae, pkg: self.factories
+        self.pending = None
+        self.rev_n = 0
+        scan.for_factories = lambda ae, pkg: (self.commit_update(), self.factories)[1]
         nt = ch.choose('gen.ntargets', 5)
         pool = list(TARGET_POOL)
         self.targets0 = [pool.pop(ch.choose('gen.target', len(pool))) for _ in range(nt)]
@@ -403,9 +456,30 @@ class PipeWorld:
             return w.on_batch()
 
         def build(factories, latest, previous):
+            import dawgie.db
+
+            persisted = dawgie.db.versions()  # the public call, read just before the load (C15)
             r = real['build'](factories, latest, previous)
-            w.on_build(latest, previous)
+            w.on_build(latest, previous, persisted)
             return r
+
+        real_sendall = _orig(farm.Hand, 'sendall')
+
+        def sendall(hand, b):
+            w.on_server_send(hand, b)
+            return real_sendall(hand, b)
+
+        farm.Hand.sendall = sendall
+        real_clear = _orig(farm, 'clear')
+
+        def clear():
+            w.check_load_notified()  # load() calls notify_all() and then clear() in one reactor step
+            r = real_clear()
+            w.G.reload()  # the (re)load boundary: everything released before is abandoned by the pipeline
+            w.probes['farm_cleared'] += 1
+            return r
+
+        farm.clear = clear
 
         def append(entry):
             r = real['append'](entry)
@@ -444,17 +518,151 @@ class PipeWorld:
         return s, [j.tag for j in schedule.que]
 
     # -- observed events ----------------------------------------------------
-    def on_build(self, latest, previous):
-        """a (re)load just rebuilt the schedule: G restarts from what the
-        reference says must be scheduled (the C15 oracle checks that claim)"""
+    def commit_update(self):
+        """the (re)load is about to scan the software: a pending update becomes the software in hand"""
+        if getattr(self, 'pending', None) is None:
+            return
+        self.spec = self.pending
+        self.pending = None
+        self.ref = aegen.Ref(self.spec)
+        self.G.ref = self.ref
+        self.eng = aegen.Engine(self.spec)
+        self.eng.install()
+        self.factories = self.eng.factories(self.pkg_order(self.spec))
+        self.probes['software_update_loaded'] += 1
+
+    def pkg_order(self, spec):
+        order, rest = [], list(range(len(spec.pkgs)))
+        while rest:
+            order.append(rest.pop(self.ch.choose('gen.pkgorder', len(rest))))
+        return order
+
+    def on_build(self, latest, previous, persisted):
+        """a (re)load just rebuilt the schedule: G restarts from what the reference says must be
+        scheduled; C15 (second sentence) and C09 are decided here, C11's load clause too"""
+        import dawgie.pl.schedule as schedule
+
         G = self.G
         G.reload()
         self._nodes_of = None
         known = self.known_targets()
+        expect = aegen.unrecorded(self.spec, persisted)
         for a in self.spec.algs:
-            if a.full not in self.recorded:
+            if a.full in expect:
                 G.must[a.full] |= ({ALL} if a.kind == 'analysis' else set(known))
         self.probes['build'] += 1
+        if self.probes['build'] > 1:
+            self.probes['rebuild'] += 1
+        # ---- C15: exactly the algorithms with an unrecorded version, each for all known targets ----
+        nodes = self.nodes()
+        for a in self.spec.algs:
+            n = nodes.get(a.full)
+            if n is None:
+                continue  # C09 reports it
+            got = set(n.get('todo'))
+            want = set(G.must[a.full]) if a.full in expect else set()
+            if got != want:
+                if a.full in expect:
+                    rule, sig = 'new_version_not_scheduled', ('analysis' if a.kind == 'analysis' else 'targets')
+                    self.probes['x'] += 0
+                else:
+                    rule, sig = 'scheduled_without_version_change', a.kind
+                self.violate('C15', rule, sig, f'(re)load {self.probes["build"]}: {a.full} ({a.kind}) has pending {sorted(got)}, '
+                             f'reference says {sorted(want)}; persisted versions alg={persisted[1].get(a.full)}')
+        if expect:
+            self.probes['load_with_new_versions'] += 1
+        if expect and len(expect) < len(self.spec.algs):
+            self.probes['load_with_some_new_some_old'] += 1
+        inq = sorted(j.tag for j in schedule.que)
+        wantq = sorted(a for a in expect if G.must[a])
+        if inq != wantq:
+            self.violate('C15', 'queue_after_load', 'que', f'(re)load: work queue {inq}, reference {wantq}')
+        self.check_graph()
+
+    # -- C09 ------------------------------------------------------------------
+    @staticmethod
+    def walk(roots):
+        seen, edges, stack = {}, set(), list(roots)
+        while stack:
+            n = stack.pop()
+            if n.tag in seen:
+                continue
+            seen[n.tag] = n
+            for c in n:
+                if c.tag != n.tag:
+                    edges.add((n.tag, c.tag))
+                stack.append(c)
+        return seen, edges
+
+    def check_graph(self):
+        import dawgie.pl.schedule as schedule
+
+        ae, ref = schedule.ae, self.ref
+        self.probes['graph_checked'] += 1
+        algs = set(ref.kind)
+        for name, roots, depth in (('task', ae.tt, 1), ('alg', ae.at, 2), ('sv', ae.svt, 3), ('value', ae.vt, 4)):
+            seen, edges = self.walk(roots)
+            want_nodes = {'.'.join(v.split('.')[:depth]) for a in algs for v in ref.values[a]}
+            want_edges = ref.edges(depth)
+            if set(seen) != want_nodes:
+                self.violate('C09', 'node_set', name, f'{name} graph nodes: missing {sorted(want_nodes - set(seen))} extra {sorted(set(seen) - want_nodes)}')
+            if edges != want_edges:
+                self.violate('C09', 'edge_set', name, f'{name} graph edges: missing {sorted(want_edges - edges)} extra {sorted(edges - want_edges)}')
+            if depth == 2:
+                for tag, n in seen.items():
+                    anc = set(n.get('ancestry') or ())
+                    if anc != ref.anc.get(tag, set()):
+                        self.violate('C09', 'ancestry', 'closure', f'{tag}: ancestry {sorted(anc)} reference closure {sorted(ref.anc.get(tag, set()))}')
+                    par = {p.tag for p in (n.get('parents') or ())}
+                    if par != ref.parents.get(tag, set()):
+                        self.violate('C09', 'parents', 'direct', f'{tag}: parents {sorted(par)} reference {sorted(ref.parents.get(tag, set()))}')
+                # exactly one node object per algorithm
+                objs = {}
+                for r in roots:
+                    for n in r.iter():
+                        objs.setdefault(n.tag, set()).add(id(n))
+                dup = sorted(t for t, o in objs.items() if len(o) > 1)
+                if dup:
+                    self.violate('C09', 'node_set', 'duplicate_node', f'more than one node object for {dup}')
+        fb = {v: '.'.join(c.split('.')[:2]) for v, c in ae.feedbacks.items()}
+        if fb != ref.feedbacks:
+            self.violate('C09', 'feedback_map', 'consumer', f'fed-back values map to {fb}, declared {ref.feedbacks}')
+        if ref.feedbacks:
+            self.probes['graph_with_feedback'] += 1
+        if any(len(ref.parents[a]) >= 2 for a in algs):
+            self.probes['graph_with_join'] += 1
+
+    def check_load_notified(self):
+        """C11: at (re)load every waiting worker was told to leave (abort + close)"""
+        import dawgie.pl.message as message
+
+        for info in self.hands.values():
+            if info['registered'] and not info['lost'] and not info['tasks'] and not info.get('dismissed'):
+                tr = info['hand'].transport
+                last = info.get('last_sent')
+                ok = last is not None and last.type == message.Type.response and last.success is False and (tr.disconnecting or tr.disconnected)
+                if not ok:
+                    self.violate('C11', 'waiting_worker_not_dismissed_at_load', 'load', f'a registered idle worker survived the (re)load without abort+close (last message {last})')
+                info['dismissed'] = True
+                self.probes['worker_dismissed_at_load'] += 1
+
+    def on_server_send(self, hand, b):
+        """every message the farm writes to a worker connection (C11)"""
+        import dawgie.context as ctx
+        import dawgie.pl.message as message
+
+        try:
+            m = message.loads(b[4:])
+        except Exception:  # noqa
+            return
+        info = self.hands.get(id(hand))
+        if info is not None:
+            info['last_sent'] = m
+        active = hasattr(ctx, 'fsm') and ctx.fsm.is_pipeline_active()
+        if m.type in (message.Type.task, message.Type.wait) and not active:
+            self.violate('C11', 'sent_while_inactive', m.type.name, f'{m.type.name} message written to a worker while the pipeline is not active (state {ctx.fsm.state})')
+        if m.type == message.Type.response and m.success is True and not active:
+            self.violate('C11', 'status_proceed_while_inactive', 'status', f'status poll answered proceed while the pipeline is not active (state {ctx.fsm.state})')
 
     def on_batch(self):
         import dawgie.context as ctx
@@ -557,6 +765,20 @@ class PipeWorld:
     def on_register(self, worker, rev):
         pass
 
+    def on_status_reply(self, worker, m):
+        """C11: a status poll is answered 'abort' while the pipeline is not active or for a stale revision"""
+        import dawgie.pl.message as message
+
+        self.probes['status_poll'] += 1
+        if m.type == message.Type.response and not m.success:
+            self.probes['status_poll_abort'] += 1
+
+    def on_result_dropped(self, worker, m):
+        if m is not None:
+            self.op(f'w{worker.idx} told to abort: result of {m.jobid}[{m.target or ALL}] run={m.runid} dropped by the worker')
+            self.dead_units.add((m.jobid, m.target or ALL))
+            self.probes['result_dropped_by_worker'] += 1
+
     def on_hand(self, hand, task):
         import dawgie.context as ctx
 
@@ -570,6 +792,7 @@ class PipeWorld:
         if unit in G.handed:
             self.violate('C03', 'handed_twice', 'dup', f'{unit} handed to a second worker')
         G.handed[unit] = id(hand)
+        self.handed_log.add(unit)
         # C11
         if not ctx.fsm.is_pipeline_active():
             self.violate('C11', 'task_while_inactive', ctx.fsm.state, f'task {unit} sent while the pipeline is not active')
@@ -584,13 +807,25 @@ class PipeWorld:
             if info['tasks']:
                 self.violate('C11', 'second_task', 'busy', f'task {unit} sent to a worker that already holds a task')
             info['tasks'] += 1
+            info['task_epoch'] = G.epoch
         self.probes['handed'] += 1
 
     def on_task_received(self, worker, m):
         self.op(f'w{worker.idx} got task {m.jobid}[{m.target or ALL}] run={m.runid}')
+        if self.cfg.get('record_on_run') and m.jobid in self.spec.by:
+            # what the real worker does first (worker.Context.run -> version.record), here written straight
+            # into the pipeline's tables instead of through the DB port
+            import dawgie.pl.version as version
+
+            a = self.spec.by[m.jobid]
+            try:
+                version.record(self.eng.factory(a.pkg, a.kind)(a.pkg), only=a.name)
+                self.probes['version_recorded_by_run'] += 1
+            except Exception as e:  # noqa  (database closed during an archive/reload)
+                self.probes['version_record_skipped'] += 1
         # C11: message content corresponds to exactly one released unit
         unit = (m.jobid, m.target if m.target else ALL, m.runid)
-        if unit not in self.G.handed:
+        if unit not in self.handed_log:  # every unit ever handed; a (re)load may have come between send and receipt
             self.violate('C11', 'task_msg_mismatch', 'unit', f'worker received {unit} which is not a handed unit')
         a = self.spec.by.get(m.jobid)
         if a is not None:
@@ -626,26 +861,44 @@ class PipeWorld:
         G, ref = self.G, self.ref
         alg, t = msg.jobid, (msg.incarnation if msg.incarnation else ALL)
         unit = (alg, t, msg.runid)
-        current = G.unit_epoch.get(unit) == G.epoch and unit in G.handed
+        epoch_of_execution = self.stamps.get((msg.timing or {}).get('started'))
+        stale = epoch_of_execution is not None and epoch_of_execution != G.epoch
+        current = (not stale) and G.unit_epoch.get(unit) == G.epoch and unit in G.handed
         before, qb = self.snap()
         nchron = len(self.chron)
         self.real['_res'](msg)
         after, qa = self.snap()
         status = {True: 'success', False: 'failure', None: 'invalid'}[msg.success]
         G.replies += 1
-        if not current:
+        if stale:
+            # result of work released before the last (re)load: the statement promises nothing for it (the pipeline
+            # records and propagates it when the job happens to be queued, which G mirrors below), but it must not
+            # be taken for the result of a unit released since
+            self.probes['reply_from_before_reload'] += 1
+            if alg not in qb:
+                return  # 'Could not find job': ignored by the pipeline
+            if G.inflight.get((alg, t)) and t in before[alg][1] and t not in after[alg][1]:
+                self.violate('C03', 'stale_result_applied', 'reply_from_before_reload',
+                             f'result {status} of {alg}[{t}] run={msg.runid}, executed by a worker that got the task before the last (re)load, '
+                             f'was taken for the result of the unit released since (handed: {unit in G.handed}, still queued: {unit in G.queued}): '
+                             f'{alg} is no longer executing {t}; the result of the unit released since the reload will be dropped or it is released twice')
+                self.stopped = True  # everything after this is poisoned, whatever the property under check
+                return
+            self.probes['stale_reply_recorded_and_propagated'] += 1
+        elif not current:
             self.probes['reply_for_unknown_or_old_unit'] += 1
             return
-        del G.handed[unit]
-        G.inflight[(alg, t)] -= 1
-        if G.inflight[(alg, t)] <= 0:
-            del G.inflight[(alg, t)]
-        # C03 (iii) / C18 (a): exactly one chronicle entry
-        new = self.chron[nchron:]
-        want = (alg, t, msg.runid, status)
-        if new.count(want) != 1 or len(new) != 1:
-            self.violate('C03', 'result_not_recorded_once', f'n={len(new)}',
-                         f'reply {want} produced chronicle entries {new}')
+        else:
+            del G.handed[unit]
+            G.inflight[(alg, t)] -= 1
+            if G.inflight[(alg, t)] <= 0:
+                del G.inflight[(alg, t)]
+            # C03 (iii) / C18 (a): exactly one chronicle entry
+            new = self.chron[nchron:]
+            want = (alg, t, msg.runid, status)
+            if new.count(want) != 1 or len(new) != 1:
+                self.violate('C03', 'result_not_recorded_once', f'n={len(new)}',
+                             f'reply {want} produced chronicle entries {new}')
         if msg.success is True:
             newvals = {v.split('.', 2)[2] for v, n in (msg.values or []) if n}
             owed = collections.defaultdict(set)
@@ -676,7 +929,8 @@ class PipeWorld:
                                  f'{alg}[{t}] success made {y} pending for {sorted(extra)} though none of its inputs was reported new')
         else:
             self.probes['reply_' + status] += 1
-            self.check_failure(alg, t, before, after, status)
+            if not stale:
+                self.check_failure(alg, t, before, after, status)
             for d in ref.desc[alg]:
                 G.must[d].discard(t)
                 G.opt[d].discard(t)
@@ -773,6 +1027,9 @@ class PipeWorld:
         mix = cfg['mix']
         bag = [k for k, n in mix.items() for _ in range(n)]
         kind = bag[ch.choose('u.kind', len(bag))]
+        if not self.db_open():
+            self.probes['user_event_skipped_db_closed'] += 1
+            return
         algs = [a.full for a in self.spec.algs]
         known = self.known_targets()
         if kind == 'rerun_executing':
@@ -803,6 +1060,19 @@ class PipeWorld:
                 self.probes['request_with_no_targets'] += 1
             G.request(sel, set(targets))
             api.cmd_run(runnables=sel, targets=targets)
+        elif kind == 'update':
+            import dawgie.context as ctx
+
+            if self.pending is not None or not ctx.fsm.is_pipeline_active():
+                self.probes['update_skipped_not_active'] += 1
+                return
+            self.pending = aegen.evolve(ch, self.spec, max_total=cfg['max_total'], graph_edits=cfg.get('graph_edits', True))
+            if ch.flip('u.newrev', 1, 2):
+                self.rev_n += 1
+                os.environ['DAWGIE_DOCKERIZED_AE_GIT_REVISION'] = f'rev{self.rev_n}'
+            self.op(f'user: software update {self.pending.change_log} rev={os.environ["DAWGIE_DOCKERIZED_AE_GIT_REVISION"]}; reset')
+            self.probes['software_update'] += 1
+            api.cmd_reset(archive=['true' if ch.flip('u.archive', 1, 4) else 'false'])
         elif kind == 'add_target':
             pool = [t for t in TARGET_POOL if t not in known]
             if pool:
@@ -922,7 +1192,11 @@ class PipeWorld:
     def result(self):
         sim, G = self.sim, self.G
         nontrivial = G.released_total >= 2 and G.replies >= 1 and (sim.counts['sched.reordered'] > 0)
-        return dict(violations=self.violations, probes=dict(self.probes), faults={k: v for k, v in sim.counts.items() if k.startswith(('fault.', 'net.'))},
+        if sim.unhandled:
+            self.probes['reactor_unhandled_error'] += len(sim.unhandled)
+            for u in sim.unhandled[:4]:
+                self.op(f'unhandled exception in a reactor callback: {u}')
+        return dict(unhandled=[list(u) for u in sim.unhandled[:6]], violations=self.violations, probes=dict(self.probes), faults={k: v for k, v in sim.counts.items() if k.startswith(('fault.', 'net.'))},
                     steps=sim.steps, vtime=round(sim.now, 3), digest=sim.digest(), nontrivial=bool(nontrivial),
                     kinds=dict(sim.kinds), released=G.released_total, replies=G.replies,
                     sample=self.ops[:60], ops=self.ops)
